@@ -13,9 +13,11 @@
    a background goroutine whose steps [OBg] may be interleaved arbitrarily with everything else), a
    HIT iterator (replays a cache entry), or a BYPASS (the raw inner iterator).
 
-   The inner iterator is a list with a cursor and an ERROR SCRIPT: the n-th call (Next or Head)
-   that reaches the script consumes its n-th entry; [Some e] makes that call fail with e, [None]
-   lets it through.  A call made with a cancelled / expired context fails with that context's
+   The inner iterator is a list with a cursor and a SCRIPT: the n-th call (Next or Head) that
+   reaches the script consumes its n-th entry; [SFail e] makes that call fail with e, [SPass] lets
+   it through, [SFx f] lets it through AND has a side effect while the call is in progress: the
+   context the consumer passed becomes cancelled / expires ([FxReq]), or the server context is
+   cancelled ([FxSrv]) -- the call still returns its element with a nil error.  A call made with a cancelled / expired context fails with that context's
    error before anything else.  Errors never move the cursor, except when [in_lossy] is set (an
    inner iterator that DROPS the element it was about to return when it reports a cancellation:
    used only to show that the code's correctness depends on the inner contract).
@@ -115,10 +117,14 @@ Definition ctx_err (c : ctxs) : option errk :=
 (* storage.IterIsDoneOrCancelled on a non-Done error *)
 Definition is_cancel (e : errk) : bool := match e with EOther => false | _ => true end.
 
-Record inner := mkIn { in_items : list tuple; in_pos : nat; in_script : list (option errk);
+(* side effects of a successful inner step *)
+Inductive fx := FxReq (e : errk) | FxSrv.
+Inductive sev := SPass | SFail (e : errk) | SFx (f : fx).
+
+Record inner := mkIn { in_items : list tuple; in_pos : nat; in_script : list sev;
                        in_lossy : bool; in_stopped : bool }.
 
-Definition in_with (i : inner) (pos : nat) (sc : list (option errk)) : inner :=
+Definition in_with (i : inner) (pos : nat) (sc : list sev) : inner :=
   mkIn (in_items i) pos sc (in_lossy i) (in_stopped i).
 
 Definition in_stop (i : inner) : inner :=
@@ -130,7 +136,7 @@ Definition inner_call (is_next : bool) (c : ctxs) (i : inner) : inner * res :=
   | None =>
     if in_stopped i then (i, RDone) else
     match in_script i with
-    | Some e :: sc =>
+    | SFail e :: sc =>
         let lose := in_lossy i && is_next && is_cancel e && (in_pos i <? length (in_items i))%nat in
         (in_with i (if lose then S (in_pos i) else in_pos i) sc, RErr e)
     | sc0 =>
@@ -140,6 +146,16 @@ Definition inner_call (is_next : bool) (c : ctxs) (i : inner) : inner * res :=
         | Some t => (in_with i (if is_next then S (in_pos i) else in_pos i) sc, RItem t)
         end
     end
+  end.
+
+(* the side effect of the call that [inner_call] is about to make (none if the call is refused at
+   entry).  What the context looks like AFTER a successful step is of no consequence for the code
+   as it is: cachedIterator.Next / CachingIterator.Next look at the inner error only. *)
+Definition inner_fx (c : ctxs) (i : inner) : option fx :=
+  match ctx_err c with
+  | Some _ => None
+  | None => if in_stopped i then None else
+            match in_script i with SFx f :: _ => Some f | _ => None end
   end.
 
 (* ------------------------------------------------------------------------------------------ *)
@@ -216,7 +232,7 @@ Record qdesc := mkQ {
   q_var : variant; q_kind : qkind; q_higher : bool;
   q_object : bytes; q_relation : bytes; q_users : list bytes;
   q_key : N; q_markers : list N; q_max : nat;
-  q_items : list tuple; q_script : list (option errk); q_lossy : bool; q_openerr : option errk }.
+  q_items : list tuple; q_script : list sev; q_lossy : bool; q_openerr : option errk }.
 
 (* newCachedIteratorByUserObjectType: the loop that finds the common user type *)
 Fixpoint common_utype (acc : bytes) (users : list bytes) : bytes :=
@@ -405,7 +421,25 @@ Definition release_sf (st : state) (key : N) (i : nat) : state :=
   | None => st
   end.
 
-Definition bg_step (st : state) (i : nat) (m : miter) : state * out :=
+Definition set_srv (st : state) : state :=
+  mkSt (st_clock st) true (st_cache st) (st_inval st) (st_sf st) (st_iters st) (st_writes st).
+
+Definition apply_fx (st : state) (f : option fx) : state :=
+  match f with Some FxSrv => set_srv st | _ => st end.
+
+(* the side effect of the inner call a miss iterator is about to make in the foreground *)
+Definition miss_fx (m : miter) (c : ctxs) : option fx :=
+  if mi_closing m then None else inner_fx c (mi_inner m).
+
+(* ... and in the background, with the goroutine's context c *)
+Definition bg_fx (m : miter) (c : ctxs) : option fx :=
+  match mi_phase m with
+  | PBgHead | PBgLoop => inner_fx c (mi_inner m)
+  | _ => None
+  end.
+
+(* c: the state of the goroutine's context when the step starts *)
+Definition bg_step (st : state) (c : ctxs) (i : nat) (m : miter) : state * out :=
   match mi_phase m with
   | PBgInit =>
       match mi_var m with
@@ -430,7 +464,7 @@ Definition bg_step (st : state) (i : nat) (m : miter) : state * out :=
           end
       end
   | PBgHead =>
-      let '(inn, r) := inner_call false (bg_ctx st m) (mi_inner m) in
+      let '(inn, r) := inner_call false c (mi_inner m) in
       let m1 := mi_set_inner m inn in
       match r with
       | RDone =>
@@ -447,7 +481,7 @@ Definition bg_step (st : state) (i : nat) (m : miter) : state * out :=
            OBgRes None false)
       end
   | PBgLoop =>
-      let '(inn, r) := inner_call true (bg_ctx st m) (mi_inner m) in
+      let '(inn, r) := inner_call true c (mi_inner m) in
       let m1 := mi_set_inner m inn in
       match r with
       | RDone =>
@@ -557,19 +591,23 @@ Definition step (st0 : state) (o : op) : state * out :=
   | OOpen q => do_open st q
   | ONext i c =>
       match nth_error (st_iters st) i with
-      | Some (IMiss m) => let '(m', r) := miss_next m c in (set_iter st i (IMiss m'), ORes r)
+      | Some (IMiss m) =>
+          let '(m', r) := miss_next m c in (set_iter (apply_fx st (miss_fx m c)) i (IMiss m'), ORes r)
       | Some (IHit h) => let '(h', r) := hit_call true h c in (set_iter st i (IHit h'), ORes r)
       | Some (IBypass k inn o) =>
           let '(inn', r) := inner_call true c inn in
-          (set_iter st i (IBypass k inn' (match r with RItem t => o ++ [t] | _ => o end)), ORes r)
+          (set_iter (apply_fx st (inner_fx c inn)) i
+                    (IBypass k inn' (match r with RItem t => o ++ [t] | _ => o end)), ORes r)
       | _ => (st, OBad)
       end
   | OHead i c =>
       match nth_error (st_iters st) i with
-      | Some (IMiss m) => let '(m', r) := miss_head m c in (set_iter st i (IMiss m'), ORes r)
+      | Some (IMiss m) =>
+          let '(m', r) := miss_head m c in (set_iter (apply_fx st (miss_fx m c)) i (IMiss m'), ORes r)
       | Some (IHit h) => let '(h', r) := hit_call false h c in (set_iter st i (IHit h'), ORes r)
       | Some (IBypass k inn o) =>
-          let '(inn', r) := inner_call false c inn in (set_iter st i (IBypass k inn' o), ORes r)
+          let '(inn', r) := inner_call false c inn in
+          (set_iter (apply_fx st (inner_fx c inn)) i (IBypass k inn' o), ORes r)
       | _ => (st, OBad)
       end
   | OStop i =>
@@ -581,7 +619,8 @@ Definition step (st0 : state) (o : op) : state * out :=
       end
   | OBg i =>
       match nth_error (st_iters st) i with
-      | Some (IMiss m) => bg_step st i m
+      | Some (IMiss m) =>
+          let c := bg_ctx st m in bg_step (apply_fx st (bg_fx m c)) c i m
       | _ => (st, OBad)
       end
   | OBgTimeout i =>
